@@ -164,6 +164,19 @@ CHECKS = {
         note='Trusted: z3 (integer arithmetic only); writes are atomic and ordered; the page parser is a deterministic stand-in (C08); '
              'replay runs the real main() on a real temporary directory with real os / re.  Known finding: only line crops requested.',
         design='4/C17'),
+    'C12': dict(
+        text='Bounded symbolic execution of the real smart sorter (Region, CoupledRegions.intersect / add_regions / update_corners / '
+             'divide_and_order / decouple / get_ordered_ids / __eq__, SmartRegionSorter.process_page) and naive sorter (Region, '
+             'process_page, sort_regions over an exact 1-D DBSCAN model) on pages of 0..n regions whose boxes have symbolic corners '
+             '(zero-width / zero-height, identical, nested and mutually overlapping boxes are inside the space) with symbolic '
+             'intersection parameter, image width and width denominator.  On every path: no exception, the recursion stays within a '
+             'step budget (a budget hit would be reported as possible non-termination), the returned regions are exactly the input '
+             'objects, each once, with polygon and text untouched.  Division by a zero extent follows numpy scalar semantics '
+             '(inf / nan, no exception); Python-float values are tracked so that a change to Python floats raises as it would.  '
+             'Bound: n <= 3 (quick), n = 4 and a concave variant (thorough).',
+        note='Trusted: z3 (linear real arithmetic), DBSCAN model (components of |a-b| <= eps, ValueError on empty input and eps <= 0), '
+             'de-skew angle 0 (no or horizontal lines); non-zero de-skew runs through shapely / cv2 and is outside.',
+        design='4/C12'),
 }
 
 NOT_APPLICABLE = {
